@@ -130,6 +130,7 @@ kf("K12-C05", "P11 recursion-depth", "C05", r"^C05\|nesting-beyond-required-dept
 # --------------------------------------------------------------------------- K18-K20: items that start on the line of another item's marker
 SAME = r"(list_list3?|enum_wide_list|enum_wide_enum|list_enum_same|term_list_same)"
 K18 = "an item that starts on the line of another item's marker ('- - a', '10. - a'): what belongs to the outer item must be indented by at most the column of the inner marker (marker width + 1), so that indentation follows the marker and not the indent unit; a multiple of the unit would put the line into the wrong item (cannot hold together with C01 for the same input; before the repair of the nesting defect the lines were indented by the unit and left their item)"
+kf("K18b-C12", "same-line nested item behind a comment: indentation follows the marker", "C12", r"^C12\|(indent-not-proportional|not-multiple-of-unit)\|(.*&)?dev=markup:[^|&]*Markup\[(List|Enum|Term)Marker\^(List|Enum|Term)Marker\]:\w+[|&]", "-/*c1\n  d*/- #[\n  foo\n]", K18 + " - here the inner item follows a comment on the line of the outer marker", "not-multiple-of-unit")
 kf("K18-C12", "same-line nested item: indentation follows the marker", "C12", r"^C12\|(indent-not-proportional|not-multiple-of-unit)\|.*" + SAME, "- - foo\n    bar", K18, "indent-not-proportional")
 P7B = "a blank character that is TEXT in markup (no-break space, ideographic space, em space) at the end of a line is removed by the trailing-blank pass: the prose loses a character (cannot be repaired without violating C11 for the same input: no line may end in a blank character)"
 kf("K1b-C08", "P7 text blank at a line end", "C08", r"^C08\|text-changed\|extra=ws:\w+:TEXTBLANK", "Alpha beta\u00a0\ngamma delta", P7B, "text-changed")
